@@ -412,7 +412,9 @@ grade_idempotent.rule_id = "C12.GRADE-IDEMPOTENT"
 def lockstep_filter(repo: Repo) -> RuleRun:
     r = RuleRun(PROP, "C12.LOCKSTEP-FILTER", floor=1, what="positional pairing of operations and blocks applies the deleted-filter of assemble")
     mesh = repo.cls("mesh.Mesh")
-    asm = repo.func("mesh.Mesh.assemble")
+    from ..util import assemble_loop
+
+    asm = assemble_loop(repo)
     r.require(any(isinstance(n, ast.Compare) and "self.deleted" in ast.unparse(n) for n in ast.walk(asm.node)), "Mesh.assemble no longer filters on self.deleted")
     OPS = ("self.operations",)
     BLK = ("self.blocks", "self.block_list.blocks")
@@ -483,7 +485,9 @@ lockstep_filter.rule_id = "C12.LOCKSTEP-FILTER"
 # --------------------------------------------------------------------------------------------
 def delete_skip(repo: Repo) -> RuleRun:
     r = RuleRun(PROP, "C12.DELETE-SKIP", floor=6, what="deleted test dominates list mutations in assemble; is_assembled guards dominate grade/backport")
-    asm = repo.func("mesh.Mesh.assemble")
+    from ..util import assemble_loop
+
+    asm = assemble_loop(repo)
     g = CFG(asm.node)
     lists = _lists_of_mesh(repo)
 
@@ -662,6 +666,94 @@ def assemble_walk(repo: Repo) -> RuleRun:
 
 
 assemble_walk.rule_id = "C12.ASSEMBLE-WALK"
+
+def assemble_atomic(repo: Repo) -> RuleRun:
+    """'... the written dictionary is a function of the current model': an assembly that fails half-way (an invalid edge on the
+    second operation raises while its edges are created) leaves NO assembled state behind - the user repairs the operation and
+    writes, and gets the dictionary of the repaired model, not the blocks that happened to be finished before the error.
+    Abstract run of Mesh.assemble over three operations where creating the edges of the second raises: the exception reaches the
+    caller, and afterwards the vertex, block, patch and face lists and the record of assembled operations are empty
+    (`is_assembled` is 'there are vertices', and assemble() returns at once on an assembled mesh)."""
+    from ..peval import NO_MATCH, Evaluator, NotEvaluable, Obj, Raised, Sym, empty_defaults
+
+    r = RuleRun(PROP, "C12.ASSEMBLE-ATOMIC", floor=2, what="an assemble() that raises half-way leaves no vertices, blocks, patches, faces or assembled operations behind")
+    fn = repo.func("mesh.Mesh.assemble")
+    mesh_cls = repo.cls("mesh.Mesh")
+    op_cls = repo.cls("construct.operations.operation.Operation")
+    ops = []
+    for k in range(3):
+        o = Obj(f"op{k}", cls=op_cls)
+        o.set("chops", {0: [], 1: [], 2: []})
+        o.set("cell_zone", "")
+        o.set("geometry", None)
+        ops.append(o)
+    mesh = Obj("mesh", cls=mesh_cls)
+    empty_defaults(repo, mesh_cls, mesh)
+    mesh.set("depot", list(ops))
+    mesh.set("deleted", set())
+    mesh.set("assembled", [])
+    stores = {}
+    for nm, attr in (("vertex_list", "vertices"), ("block_list", "blocks"), ("edge_list", "edges"), ("patch_list", "patches"), ("face_list", "faces"), ("geometry_list", "geometry")):
+        lst = Obj(nm)
+        lst.set(attr, [])
+        stores[nm] = (lst, attr)
+        mesh.set(nm, lst)
+
+    def hook(ev, call: ast.Call, name):
+        ch = attr_chain(call.func) or ""
+        if ch == "self._add_vertices":
+            o = ev.eval(call.args[0])
+            vs = [Sym(f"V:{o._name}:{k}") for k in range(8)]
+            stores["vertex_list"][0].get("vertices").extend(vs)
+            return vs
+        if ch == "Block":
+            b = Obj("block")
+            b.set("index", ev.eval(call.args[0]))
+            return b
+        if ch == "self.edge_list.add_from_operation":
+            o = ev.eval(call.args[1])
+            if o._name == "op1":
+                raise Raised("ValueError")
+            stores["edge_list"][0].get("edges").append(Sym(f"E:{o._name}"))
+            return []
+        if ch == "get_args":
+            return (0, 1, 2)
+        if isinstance(call.func, ast.Attribute) and isinstance(call.func.value, ast.Attribute) and attr_chain(call.func.value) in (f"self.{n_}" for n_ in stores):
+            lst, attr = stores[attr_chain(call.func.value).split(".")[1]]
+            if call.func.attr == "add":
+                lst.get(attr).append(Sym(f"{attr}:{len(lst.get(attr))}"))
+                return None
+            if call.func.attr == "clear":
+                del lst.get(attr)[:]
+                return None
+        if ch in ("self.add_geometry",):
+            return None
+        return NO_MATCH
+
+    raised = None
+    try:
+        Evaluator(repo=repo, module=fn.module, call_hook=hook).call_funcinfo(fn, [mesh])
+    except Raised as err:
+        raised = err.exc_name
+    except NotEvaluable as err:
+        raise AnalysisError(f"Mesh.assemble not evaluable on the failing-edge model: {err}") from err
+    r.check(raised == "ValueError", fn, "the error of the failing operation reaches the caller", f"Mesh.assemble swallows the error raised while the edges of the second operation are created (ended with {raised!r}): the user is not told that the mesh is incomplete", fn.node, key="error-propagates")
+    left = {nm: len(lst.get(attr)) for nm, (lst, attr) in stores.items() if nm != "geometry_list"}
+    left["assembled"] = len(mesh.get("assembled"))
+    r.check(
+        not any(left.values()),
+        fn,
+        "nothing of the failed assembly is left",
+        f"after Mesh.assemble failed on the second of three operations the mesh still holds {({k: v for k, v in left.items() if v})}: is_assembled is true, the next assemble() returns at once and write() "
+        "writes the one block that was finished - box a, box b with an Origin edge at the middle of its chord: assemble() raises; the user repairs b; write() writes ONE hex without any message",
+        fn.node,
+        key="nothing-left",
+    )
+    return r
+
+
+assemble_atomic.rule_id = "C12.ASSEMBLE-ATOMIC"
+
 
 def backport_owns_points(repo: Repo) -> RuleRun:
     """After backport() every operation owns its eight points: Face.update (and every other coordinate setter) stores copies."""
@@ -919,4 +1011,4 @@ def writers_pure(repo: Repo, prop: str = PROP, rule: str = "C12.WRITERS-PURE") -
 writers_pure.rule_id = "C12.WRITERS-PURE"
 
 
-RULES = [clear_complete, grade_idempotent, lockstep_filter, backport_map, delete_skip, assemble_walk, backport_owns_points, no_class_state, no_stale_lazy_cache, empty_patch, neighbour_untouched, exact_moves, grade_replay, labels_private, geometry_redeclared, patch_state, writers_pure]
+RULES = [clear_complete, grade_idempotent, lockstep_filter, backport_map, delete_skip, assemble_walk, backport_owns_points, no_class_state, no_stale_lazy_cache, empty_patch, neighbour_untouched, exact_moves, grade_replay, labels_private, geometry_redeclared, patch_state, writers_pure, assemble_atomic]
